@@ -487,13 +487,14 @@ func TestC14(t *testing.T) {
 						dst.Pix[i] = 0xAB
 					}
 					dst = dst.SubImage(image.Rect(0, dy, 256, dy+256)).(*image.RGBA64)
+					par := []int{3, 40, 7, 300, 1, 256, 257}[(len(layout)+len(op)+si)%7] // also more workers than a pool might hold, and than rows
 					c := Case{Check: "image-" + op + "-" + srcKind + " (" + layout + ")", Space: s.Name}
 					ev.Journal("alpha", c) // a panic on one of the transform's worker goroutines ends the process
 					pn, msg := ev.Guard(func() {
 						if op == "Linearise" {
-							s.LineariseImage(dst, src, 3)
+							s.LineariseImage(dst, src, par)
 						} else {
-							s.EncodeImage(dst, src, 3)
+							s.EncodeImage(dst, src, par)
 						}
 					})
 					evals += 65536
